@@ -170,3 +170,12 @@ PLANS["C14"] = dict(kind="func", stages=[dict(gen=dict(quick=[("AttrGrid.tla", "
                          "every case is a distinct input",
                     required_facts=["C14:in-group", "C14:not-in-group", "C14:in-group-by-affinity", "C14:in-default", "C14:daemonset", "C14:two-terms", "C14:two-expressions", "C14:node"],
                     assumptions=FUNC_ASSUMPTIONS + ["shapes the statement does not decide for the default group (an affinity object without any rule) admit either verdict"])
+
+PLANS["C16"] = dict(kind="func", stages=[dict(gen=dict(quick=[("ConfigGrid.tla", "ConfigGrid.cfg", {})], thorough=[("ConfigGrid.tla", "ConfigGrid.cfg", {"Tier": '"thorough"'})]),
+                                              cmd="config", trace="TraceConfig")],
+                    rule="cases: nine option groups (names, thresholds, min/max, rates, grace periods, cool-down, effect, lifecycle, max age), each enumerated exhaustively over its value set with the "
+                         "others at a valid baseline (quick) and every pair of groups (thorough); each configuration is written as YAML and as JSON, decoded by the real UnmarshalNodeGroupOptions and "
+                         "validated by the real ValidateNodeGroup; plus one case per key of the documented example; every case is a distinct input",
+                    required_facts=["C16:accepted", "C16:rejected", "C16:auto-discover", "C16:documented-key", "C16:rejected-thresholds", "C16:rejected-removal-rates", "C16:rejected-grace-periods",
+                                    "C16:rejected-cool-down", "C16:rejected-min-max", "C16:rejected-taint-effect", "C16:rejected-lifecycle", "C16:rejected-max-node-age"],
+                    assumptions=FUNC_ASSUMPTIONS + ["the decode half is a differential test (YAML vs JSON vs intent) driven by TLC-generated cases; documented keys are those of the example block of docs/configuration/nodegroup.md"])
